@@ -168,12 +168,23 @@ def via_history(cfg, rng):
     c0['etabar'] = cfg['etabar'] * (1.0 + rnd(rng, 0.03, 0.1))
     if 'B2c' in cfg:
         c0['B2c'] = cfg['B2c'] + 0.07
+    if rng.random() < 0.35:
+        # start from a stellarator-SYMMETRIC object; the symmetry is broken (if the target is asymmetric) only by the later set_dofs
+        for k in ('rs', 'zc'):
+            if k in c0:
+                c0[k] = [0.0] * len(c0[k])
+        c0['sigma0'] = 0.0
+        if 'B2s' in c0:
+            c0['B2s'] = 0.0
+    shear_first = cfg.get('order') == 'r3' and rng.random() < 0.5
     h = WarnCatcher(); lg = logging.getLogger('qsc'); lg.addHandler(h); old = lg.level; lg.setLevel(logging.WARNING)
     try:
         with warnings.catch_warnings(record=True) as w:
             warnings.simplefilter('always')
             with np.errstate(all='ignore'):
                 q = qsc.Qsc(**c0)
+                if shear_first:
+                    q.calculate_shear()      # anything this caches must not survive the change of axis below
                 if q.nfourier != nh:
                     q.change_nfourier(nh)
                 z = [0.0] * nh
@@ -181,8 +192,8 @@ def via_history(cfg, rng):
                              + [cfg['etabar'], cfg.get('sigma0', 0.0), cfg.get('B2s', 0.0), cfg.get('B2c', 0.0), cfg.get('p2', 0.0), cfg.get('I2', 0.0), cfg.get('B0', 1.0)], dtype=float)
                 h.records.clear()
                 q.set_dofs(x)
-                if cfg.get('order') == 'r3' and rng.random() < 0.5:
-                    q.calculate_shear()
+                if cfg.get('order') == 'r3' and (shear_first or rng.random() < 0.5):
+                    q.calculate_shear()      # (after shear_first the old iota2 would otherwise be left on the object, stale by design)
         msgs = list(h.records)
     finally:
         lg.removeHandler(h); lg.setLevel(old)
@@ -206,8 +217,8 @@ def gen_admissible(rng, tries=40, shear=False, history=True, **kw):
                 try:
                     q2, msgs2 = via_history(cfg, rng)
                     if admissible(q2, msgs2):
-                        if shear and cfg.get('order') == 'r3' and not hasattr(q2, 'iota2'):
-                            q2.calculate_shear()
+                        if shear and cfg.get('order') == 'r3':
+                            q2.calculate_shear()          # (an iota2 left over from before the change of axis would be stale by design)
                         return cfg, q2
                 except Exception:
                     pass
@@ -271,7 +282,7 @@ def single_knob_variant(cfg, rng):
     """a copy of a stellarator-symmetric input with exactly ONE symmetry-breaking knob switched on (B2s, sigma0, rs or zc)"""
     c = dict((k, v) for k, v in cfg.items() if k not in ('rs', 'zc', 'sigma0', 'B2s'))
     nh = len(c['rc'])
-    knobs = ['sigma0', 'rs', 'zc'] + (['B2s', 'B2s'] if c.get('order', 'r1') != 'r1' else [])
+    knobs = ['sigma0', 'rs', 'zc'] + (['B2s'] * 4 if c.get('order', 'r1') != 'r1' else [])
     k = knobs[int(rng.integers(0, len(knobs)))]
     if k == 'B2s':
         c['B2s'] = round_sig(rnd(rng, 0.2, 1.0) * (1 if rng.random() < 0.5 else -1))
